@@ -98,7 +98,9 @@ def run_case(sub, ex, conn_n, upg_n, part=None):
     def h(ex):
         Spawned.tasks = []
         hm = HMap([('connection', HV(SB(conn), asc['connection'], p['connection'])), ('upgrade', HV(SB(upg), asc['upgrade'], p['upgrade'])),
-                   ('sec-websocket-version', HV(SB(ver), True, p['version'])), ('sec-websocket-key', HV(key, True, p['key']))])
+                   ('sec-websocket-version', HV(SB(ver), True, p['version'])), ('sec-websocket-key', HV(key, True, p['key'])),
+                   # headers that have nothing to do with the handshake may be there or not (a client library announcing an empty body)
+                   ('content-length', HV('0', True, z3.Bool('present_content_length'))), ('x-unrelated', HV('v', True, z3.Bool('present_unrelated')))])
         req = Request(headers=hm)
         rq = ex.mk_struct_partial('RequestContext', log=Opaque('log'))
         fut = ex.call_fn(F, [Ref(Cell(rq)), req])
@@ -172,6 +174,10 @@ def report(sub, m, conn, upg, ver, p, asc, what, key=None):
         kb = concrete(m, key.bs)
         if all(b in (9,) or 0x20 <= b <= 0x7e or b >= 0x80 for b in kb) and kb.strip(b' \t') == kb and kb:
             hdr['key_bytes'] = list(kb); hdr['key'] = kb.decode('latin1')
+    extra = []
+    if ev(z3.Bool('present_content_length')): extra.append(['Content-Length', '0'])
+    if ev(z3.Bool('present_unrelated')): extra.append(['X-Unrelated', 'v'])
+    if extra: hdr['extra'] = extra
     case = {'op': 'ws_handshake', 'headers': hdr}
     nat = replay([case])[0]
     want = spec_concrete(hdr)
